@@ -92,6 +92,14 @@ def assign_target(eng, st, tgt, v):
         return unpack(eng, st, tgt.elts, v)
     if isinstance(tgt, ast.Subscript):
         outs = []
+        if isinstance(tgt.slice, ast.Slice):
+            # x[a:b] = ... : an in-place mutation of x (only lists support it); units that state an immutability invariant for x get an obligation
+            h = eng.method_models.get("__slice_store__")
+            if h is None:
+                raise Unsupported("slice assignment")
+            for s1, cont in eng.ev(tgt.value, st):
+                outs.extend([(s1, _raise(cont))] if is_raised(cont) else h(eng, s1, cont, v, tgt))
+            return outs
         for s1, vals in eng.ev_all([tgt.value, tgt.slice], st):
             if is_raised(vals):
                 outs.append((s1, _raise(vals)))
